@@ -8,6 +8,7 @@ drive : add/mul/sub on all pairs of carrier points held in Tensors and in Patter
 judge : Trace_Semiring (TLC) -- observed values against the carrier operations.
 """
 from __future__ import annotations
+import warnings
 import itertools, json, math
 from ..common import *
 from .. import ag as AG
@@ -231,6 +232,18 @@ def drive_binade(args):
     dtype = getattr(torch, dtname)
     f = FMT[dtname]
     sr = {'real': AG.semiring_for('real', dtype), 'log': AG.semiring_for('log', dtype), 'vit': AG.semiring_for('mp', dtype)}[fam]
+    # a HISTORY in this process before any law is looked at: every semiring has already solved a linear system (what any
+    # sum_product of a recursive grammar does).  Whatever a solver leaves behind in the process -- a floating-point mode,
+    # a cached constant -- must not change how the smallest and largest floats behave afterwards.
+    for kind0 in ('real', 'log', 'mp'):
+        s0 = AG.semiring_for(kind0, dtype)
+        z0, o0 = s0.from_int(0).item(), s0.from_int(1).item()
+        h0 = 0.5 if kind0 == 'real' else -0.5
+        a0 = torch.tensor([[z0, h0], [h0, z0]], dtype=dtype)
+        b0 = torch.tensor([o0, z0], dtype=dtype)
+        with warnings.catch_warnings():
+            warnings.simplefilter('ignore')
+            s0.solve(a0, b0)
     T = lambda b: torch.tensor(bn_float(b), dtype=dtype)
     P = lambda s, e: {'k': 'b', 's': s, 'e': e, 'p': True}
     INFp, INFm = {'k': 'inf', 's': 1, 'e': 0, 'p': False}, {'k': 'inf', 's': -1, 'e': 0, 'p': False}
